@@ -112,8 +112,12 @@ Proof. exact spec_unambiguous. Qed.
 
 (** Listings. *)
 Theorem C13_listing_filtered : forall a p all h,
-  In h (listing_of a p all) <-> In h all /\ auth_allows a p (Some h) = true.
+  In h (listing_of a (F p FEntry) all) <-> In h all /\ auth_allows a p (Some h) = true.
 Proof. exact listing_filtered. Qed.
+
+Theorem C13_listing_general_all_or_nothing : forall a p all,
+  listing_of a (F p FGeneral) all = all \/ listing_of a (F p FGeneral) all = [].
+Proof. exact listing_general_all_or_nothing. Qed.
 
 (** The executable oracle used on the implementation's answers follows from agreement with the model. *)
 Theorem C13_agrees_implies_ok : forall c, agrees c = true -> c13_ok c = true.
@@ -138,4 +142,5 @@ Print Assumptions C13_public_exactly.
 Print Assumptions C13_spec_sane.
 Print Assumptions C13_spec_unambiguous.
 Print Assumptions C13_listing_filtered.
+Print Assumptions C13_listing_general_all_or_nothing.
 Print Assumptions C13_agrees_implies_ok.
